@@ -10,6 +10,10 @@ NOTE = ("Trusted: z3 5.1 (FP obligations: cvc5 1.0.3), the symx proxies and shim
         "library with the real bitstruct). Bounds and everything outside them are listed in "
         "the evidence file and DESIGN.md.")
 CLAIMED = {
+ "C01": ("§5 C01", "Round trip Request.encode -> decode on the real code with every physical value symbolic (integers to 64-bit fields, byte-field contents, binary64 floats) for each enumerated description of the catalogue; z3 decides per path that the decoded value equals the encoded one for ALL values, that the following parameter is still found and that the decoder consumed the whole PDU."),
+ "C02": ("§5 C02", "On every success path of the real encoder the PDU is compared, as a bit-vector equality over all values, with the PDU laid out by an independent reference statement of the ODX wire format (models/odxref.py); the reference PDU is decoded back; representable values must be accepted."),
+ "C04": ("§5 C04", "Values range over representable AND unrepresentable inputs (|v| <= 2^(bl+2), byte fields of every length 0..n+1, unencodable/over/under-long strings): on EVERY path the outcome must be an OdxError or a PDU that decodes back to the input; any other exception class or a silently altered value is a violation. Solver verdict per path."),
+ "C08": ("§5 C08", "The real get_static_bit_length()/coded_const_prefix() answers are confronted with the symbolic encoder: on every success path 8*len(pdu) equals the static length and the constant prefix is a prefix of the PDU, for all values."),
  "C12": ("§5 C12", "Telegrams of every enumerated length (1..130 and the boundaries up to 4095; classic and FD frame sizes) are segmented by a reference ISO 15765-2 sender with symbolic payload and padding bytes; sequences per id, symbolic (value-forked) interleaving schedules of up to 3 ids with inserted flow-control/unrelated frames, and an inductive isolation step (one arbitrary frame from an arbitrary state of all ids leaves every other id's state untouched) are run through the real decode_rx_frame; equality of reported and transmitted telegrams is a solver verdict over all payload bytes. Flow-control answers of IsoTpActiveDecoder are checked per first frame; both candump text formats at witness level."),
  "C13": ("§5 C13", "All byte values of up to 3 (quick) / 4 (thorough) arbitrary CAN frames from the initial state, plus ONE arbitrary frame from an ARBITRARY state (announced length, sequence index, buffer contents symbolic): an inductive step which shows that the real decode_rx_frame keeps simulating a reference reassembler, extending the result to histories of any length within the enumerated buffer/frame lengths. Solver verdict per path, not sampling."),
 }
